@@ -116,57 +116,31 @@ impl Router {
         if let Some(((_, path_rules), trie_matches)) =
             self.tree.lookup_with_path(hostname_b, true, trie_path)
         {
-            let mut prefix_length = 0;
+            // Strict ranking of the matching rules of the leaf, independent
+            // of the order in which they were added (doc/configure.md, "Path
+            // matching precedence within a frontend"): EQUALS over REGEX
+            // over the longest PREFIX, then a method-specific rule over a
+            // method-agnostic one. Among rules of equal rank (two regexes)
+            // the first one is kept.
+            let mut best_rank: (u8, usize, u8) = (0, 0, 0);
             let mut matched: Option<(&PathRule, &Route)> = None;
 
             for (rule, method_rule, route) in path_rules {
-                match rule.matches(path_b) {
-                    PathRuleResult::Regex | PathRuleResult::Equals => {
-                        match method_rule.matches(method) {
-                            MethodRuleResult::Equals => {
-                                return Ok(RouteResult::new_with_trie(
-                                    hostname_b,
-                                    trie_matches,
-                                    path_b,
-                                    rule,
-                                    route,
-                                ));
-                            }
-                            MethodRuleResult::All => {
-                                prefix_length = path_b.len();
-                                matched = Some((rule, route));
-                            }
-                            MethodRuleResult::None => {}
-                        }
-                    }
-                    PathRuleResult::Prefix(size) => {
-                        if size >= prefix_length {
-                            match method_rule.matches(method) {
-                                // FIXME: the rule order will be important here
-                                MethodRuleResult::Equals => {
-                                    // Longest-prefix wins: the selected
-                                    // length is monotonically non-decreasing
-                                    // across the candidate scan.
-                                    debug_assert!(
-                                        size >= prefix_length,
-                                        "longest-prefix selection must never shrink the match length",
-                                    );
-                                    prefix_length = size;
-                                    matched = Some((rule, route));
-                                }
-                                MethodRuleResult::All => {
-                                    debug_assert!(
-                                        size >= prefix_length,
-                                        "longest-prefix selection must never shrink the match length",
-                                    );
-                                    prefix_length = size;
-                                    matched = Some((rule, route));
-                                }
-                                MethodRuleResult::None => {}
-                            }
-                        }
-                    }
-                    PathRuleResult::None => {}
+                let (kind, size) = match rule.matches(path_b) {
+                    PathRuleResult::Equals => (3, 0),
+                    PathRuleResult::Regex => (2, 0),
+                    PathRuleResult::Prefix(size) => (1, size),
+                    PathRuleResult::None => continue,
+                };
+                let method_rank = match method_rule.matches(method) {
+                    MethodRuleResult::Equals => 1,
+                    MethodRuleResult::All => 0,
+                    MethodRuleResult::None => continue,
+                };
+                let rank = (kind, size, method_rank);
+                if matched.is_none() || rank > best_rank {
+                    best_rank = rank;
+                    matched = Some((rule, route));
                 }
             }
 
